@@ -31,9 +31,20 @@ def one(sd):
 
 
 seeds = sorted(x for x in glob.glob("/verif/seeded/C*-*") if os.path.isdir(x))
+benign = sorted(x for x in glob.glob("/verif/seeded/benign/C*-*") if os.path.isdir(x))
 with ThreadPoolExecutor(max_workers=8) as ex:
     res = dict(ex.map(one, seeds))
-json.dump(res, open("/verif/seeded/MATRIX.json", "w"), indent=1, sort_keys=True)
+with ThreadPoolExecutor(max_workers=8) as ex:
+    bres = dict(ex.map(one, benign))
+noisy = []
+for name, r in sorted(bres.items()):
+    r["benign"] = True
+    if r.get("fired") or "error" in r:
+        noisy.append(name)
+    print("benign", name, "SILENT" if not r.get("fired") and "error" not in r else f"NOISY {r}")
+res_all = dict(res)
+res_all.update({"benign/" + k: v for k, v in bres.items()})
+json.dump(res_all, open("/verif/seeded/MATRIX.json", "w"), indent=1, sort_keys=True)
 missed = []
 for name, r in sorted(res.items()):
     mp = f"/verif/seeded/{name}/meta.json"
@@ -48,4 +59,4 @@ for name, r in sorted(res.items()):
     print(name, "OWN" if r["own"] else "MISSED-BY-OWN", r["fired"].get(r["property"], {}).get("rules"), "also:", others)
     if not r["own"]:
         missed.append(name)
-print("seeds", len(res), "missed by own property:", missed)
+print("seeds", len(res), "missed by own property:", missed, "| benign changes", len(bres), "noisy:", noisy)
